@@ -140,6 +140,8 @@ pub fn run(ctx: &Ctx, rep: &mut Report) {
         let mut probe_refuses = false;
         let mut alive = true;
         let mut executed_inbound: Vec<(Vec<u8>, Vec<u8>)> = Vec::new(); // (message id, payload)
+        // scripted follow-ups: a valid transfer toward X, X loses its trust, the same transfer again
+        let mut script: std::collections::VecDeque<(&str, Vec<u8>)> = std::collections::VecDeque::new();
         for _ in 0..36 {
             if !alive {
                 alive = false;
@@ -161,13 +163,29 @@ pub fn run(ctx: &Ctx, rep: &mut Report) {
                     }
                 }
             }
-            let op = OPS[rng.weighted(&[10, 8, 2, 2, 2, 2])];
-            let t = toks[rng.usize(toks.len())].clone();
-            let user = users[rng.usize(users.len())].clone();
+            let scripted = script.pop_front();
+            let op = match &scripted {
+                Some((o, _)) => *o,
+                None => OPS[rng.weighted(&[10, 8, 2, 2, 2, 2])],
+            };
+            let mut t = toks[rng.usize(toks.len())].clone();
+            let mut user = users[rng.usize(users.len())].clone();
+            if let Some(("outbound", _)) = &scripted {
+                // a holder who can afford both the transfer and the gas
+                'find: for tt in &toks {
+                    for uu in &users {
+                        if !(tt.probe && probe_refuses) && w.model.balance(&tt.addr, uu) >= 1 && w.model.balance(&w.gas.addr, uu) >= 1 {
+                            t = tt.clone();
+                            user = uu.clone();
+                            break 'find;
+                        }
+                    }
+                }
+            }
             match op {
                 "outbound" => {
                     let have = w.model.balance(&t.addr, &user);
-                    let aclass = *rng.pick(AMOUNTS);
+                    let aclass = if scripted.is_some() { "one" } else { *rng.pick(AMOUNTS) };
                     let amount: i128 = match aclass {
                         "zero" => 0,
                         "negative" => -1,
@@ -177,10 +195,10 @@ pub fn run(ctx: &Ctx, rep: &mut Report) {
                         _ => 1 + rng.below(have.max(1) as u64 + 2) as i128,
                     };
                     // sometimes the gas is paid in the very token that is being transferred
-                    let gas_same = !t.probe && rng.chance(1, 6);
+                    let gas_same = scripted.is_none() && !t.probe && rng.chance(1, 6);
                     let gas_addr_sel = if gas_same { t.addr.clone() } else { w.gas.addr.clone() };
                     let ghave = if gas_same { (have - amount.max(0)).max(0) } else { w.model.balance(&gas_addr_sel, &user) };
-                    let gclass = *rng.pick(GAS);
+                    let gclass = if scripted.is_some() { "one" } else { *rng.pick(GAS) };
                     let gas_amount: i128 = match gclass {
                         "zero" => 0,
                         "negative" => -1,
@@ -188,8 +206,15 @@ pub fn run(ctx: &Ctx, rep: &mut Report) {
                         "affordable" => ghave,
                         _ => ghave + 1,
                     };
-                    let dclass = *rng.pick(DESTS);
+                    let dclass = match &scripted {
+                        Some((_, c)) => {
+                            rep.count("scripted-outbound-around-trust-removal");
+                            if w.model.trusted.contains(c) { "scripted-trusted" } else { "scripted-removed" }
+                        }
+                        None => *rng.pick(DESTS),
+                    };
                     let dest: Vec<u8> = match dclass {
+                        "scripted-trusted" | "scripted-removed" => scripted.clone().unwrap().1,
                         "trusted" => {
                             let tr: Vec<Vec<u8>> = w.model.trusted.iter().filter(|c| c.as_slice() != HUB_CHAIN).cloned().collect();
                             if tr.is_empty() {
@@ -210,7 +235,7 @@ pub fn run(ctx: &Ctx, rep: &mut Report) {
                     let dest_trusted = w.model.trusted.contains(&dest);
                     let dest_addr = rng.bytes_of(&[0, 1, 20, 33]);
                     let data: Option<Vec<u8>> = if rng.chance(1, 3) { Some(rng.bytes_of(&[0, 1, 32, 100])) } else { None };
-                    let unauth = rng.chance(1, 15);
+                    let unauth = scripted.is_none() && rng.chance(1, 15);
                     let auth = if unauth { Auth::Nobody } else { Auth::Only(vec![user.clone()]) };
                     let refused = t.probe && probe_refuses;
                     let want = !unauth && amount > 0 && have >= amount && dest_trusted && gas_amount > 0 && ghave >= gas_amount && !refused;
@@ -471,8 +496,19 @@ pub fn run(ctx: &Ctx, rep: &mut Report) {
                     }
                 }
                 "trust-change" => {
-                    let chain: Vec<u8> = rng.pick(&[b"ethereum".to_vec(), b"avalanche".to_vec(), b"axelar".to_vec(), b"bsc".to_vec()]).clone();
+                    let chain: Vec<u8> = match &scripted {
+                        Some((_, c)) => c.clone(),
+                        None => rng.pick(&[b"ethereum".to_vec(), b"avalanche".to_vec(), b"axelar".to_vec(), b"bsc".to_vec()]).clone(),
+                    };
                     let now = w.model.trusted.contains(&chain);
+                    // half of the removals are scripted: a valid transfer toward the chain, the
+                    // removal, and the same transfer again with nothing in between
+                    if scripted.is_none() && now && chain.as_slice() != HUB_CHAIN && rng.chance(1, 2) {
+                        script.push_back(("outbound", chain.clone()));
+                        script.push_back(("trust-change", chain.clone()));
+                        script.push_back(("outbound", chain.clone()));
+                        continue;
+                    }
                     let owner = w.owner.clone();
                     let o = w.do_set_trusted(&chain, !now, Auth::Only(vec![owner]));
                     rep.count("op:trust-change");
